@@ -298,7 +298,7 @@ PROPS = {
     },
     'C18': {
         'contract_modules': ['c18_trace'],
-        'functions': ['treadmill.trace._zk:cleanup', 'treadmill.trace._zk:upload_batch', 'treadmill.trace.app.zk:cleanup_trace'],
+        'functions': ['treadmill.trace._zk:cleanup', 'treadmill.trace._zk:upload_batch', 'treadmill.trace.app.zk:cleanup_trace', 'treadmill.trace.app.zk:cleanup_finished'],
         'assumptions': [],
     },
     'C19': {
